@@ -22,13 +22,14 @@ where
         log_n,
         max_width: *rng.pick(&[2usize, 5, 9, 12]),
         max_degree: *rng.pick(&[2usize, 3, 4]),
-        periodic: rng.bool(),
+        periodic: rng.bool() || log_n >= 11,
         aux: rng.chance(1, 3),
         exemptions: *rng.pick(&[1usize, 1, 2]),
         long_sequence: rng.chance(1, 4),
         max_blowup: 16,
         exact: false,
         max_assertions: 0,
+        long_cycles: log_n >= 11,
     };
     let mut inst = gen_instance(rng, B::SPEC, &gp);
     // grinding on in two thirds of the cases (the concurrent nonce search may return any nonce)
